@@ -9,7 +9,7 @@ use crate::bridge::*;
 use crate::prng::Rng;
 use crate::props::c07::gen_history;
 use crate::refimpl::refwriter::*;
-use crate::refimpl::robj::RObj;
+use crate::refimpl::robj::{RDoc, RObj};
 use crate::util::*;
 use lopdf::Document;
 use serde_json::{json, Map, Value};
@@ -216,6 +216,41 @@ pub fn filtered_child(path: &std::path::Path, threads: usize, reps: u64) -> Filt
             return FilteredOutcome::Inconclusive("child still busy after 600 s".into());
         }
     }
+}
+
+/// file #i of the encrypted-file stage (None when the library refuses to encrypt it)
+pub fn gen_encrypted_file(seed: u64, i: u64) -> Option<Vec<u8>> {
+    let mut r = Rng::for_case(seed, "C08-encrypted", 0, i);
+    let mut conf = crate::props::c05::gen_conf(&mut r, i);
+    // the user password is empty, so that Document::load_mem decrypts on its own
+    conf.user = String::new();
+    conf.user_prepared = vec![];
+    let name = |s: &str| RObj::Name(s.as_bytes().to_vec());
+    let k = |s: &str| s.as_bytes().to_vec();
+    let container = |members: &[(u32, String)]| -> RObj {
+        let mut index = String::new();
+        let mut data = String::new();
+        for (n, body) in members {
+            index.push_str(&format!("{} {} ", n, data.len()));
+            data.push_str(body);
+            data.push(' ');
+        }
+        RObj::Stream(vec![(k("Type"), name("ObjStm")), (k("N"), RObj::Int(members.len() as i64)), (k("First"), RObj::Int(index.len() as i64))], format!("{}{}", index, data).into_bytes())
+    };
+    let mut d = RDoc::new();
+    d.objects.insert((1, 0), RObj::Dict(vec![(k("Type"), name("Catalog")), (k("Shared"), RObj::Ref(50, 0))]));
+    let fillers = 100 + r.usize_below(400);
+    let mut big: Vec<(u32, String)> = (0..fillers as u32).map(|j| (100 + j, format!("(filler {} of the large container)", j))).collect();
+    big.insert(r.usize_below(big.len()), (50, "(copy of object 50 in the large container)".to_string()));
+    // the large container takes the lowest or the highest of the three numbers
+    let order: [u32; 3] = if r.bool() { [3, 45, 46] } else { [46, 3, 45] };
+    d.objects.insert((order[0], 0), container(&big));
+    d.objects.insert((order[1], 0), container(&[(50, "(copy of object 50 in a small container)".to_string()), (60, "(sixty)".to_string())]));
+    d.objects.insert((order[2], 0), container(&[(61, "(sixty-one)".to_string()), (50, "(copy of object 50 in another small container)".to_string())]));
+    d.trailer = vec![(k("Root"), RObj::Ref(1, 0)), (k("ID"), RObj::Array(vec![RObj::Str(r.bytes(16), true), RObj::Str(r.bytes(16), true)]))];
+    // (the library's own writer leaves object streams out, so the file is encrypted by the reference handler and
+    // written by the reference writer)
+    Some(crate::props::c05::reference_encrypted_file(&conf, &d, &mut r))
 }
 
 fn factorial(k: usize) -> i64 {
@@ -449,6 +484,56 @@ pub fn run(cfg: &RunCfg) -> (PropMeta, ShardOut, Map<String, Value>) {
         }
         let _ = std::fs::remove_file(&path);
     }
+    // ---- stage 2d: encrypted files. Their object streams are unpacked after decryption (Document::decrypt_raw), a
+    // second place where objects of several containers meet. Files: a large container and two small ones that all
+    // carry the same object number, encrypted by the reference handler with an empty user password (so that loading decrypts).
+    let n5 = cfg.n(3, 16);
+    for i in 0..n5 {
+        let Some(bytes) = gen_encrypted_file(cfg.seed, i) else {
+            out.count("encrypted_files_not_built");
+            continue;
+        };
+        MERGE_PERM.store(-1, Ordering::Relaxed);
+        DELAY_SEED.store(0, Ordering::Relaxed);
+        let Ok(base) = Document::load_mem(&bytes) else {
+            out.count("files_not_loadable");
+            continue;
+        };
+        let d0 = digest(&base);
+        out.counters.insert(format!("digest:s2d:{}", i), d0);
+        out.evaluations += 1;
+        out.digests.insert(crate::prng::fnv_bytes(&bytes));
+        if base.is_encrypted() {
+            out.count("encrypted_files_left_encrypted");
+        }
+        if is_seq {
+            continue;
+        }
+        if let Some(sd) = seq.get(&format!("digest:s2d:{}", i)) {
+            out.count("compared_with_sequential_build");
+            if *sd != d0 {
+                out.finding(Finding {
+                    signature: "C08/differs-from-sequential".into(),
+                    what: format!("encrypted file {}: parallel load digest {:x} != sequential build digest {:x}", i, d0, sd),
+                    witness: json!({"kind":"file","file_hex":hex(&bytes),"object_streams":3,"encrypted":true}),
+                });
+            }
+        }
+        for (round, threads) in [1usize, 2, 3, 4, 8, 16, 2, 3, 4, 8, 16, 16].iter().enumerate() {
+            let _ = round;
+            let d = load_in_pool(&bytes, *threads).map(|d| digest(&d)).unwrap_or(0);
+            out.evaluations += 1;
+            out.count("encrypted_file_pool_loads");
+            if d != d0 {
+                out.finding(Finding {
+                    signature: "C08/schedule-dependent".into(),
+                    what: format!("encrypted file {} (three object streams with one shared number): load on a pool of {} threads gives digest {:x}, default load gives {:x}", i, threads, d, d0),
+                    witness: json!({"kind":"file","file_hex":hex(&bytes),"object_streams":3,"threads":threads,"encrypted":true}),
+                });
+                break;
+            }
+        }
+    }
     // ---- stage 3 (thorough, default-features build only): Miri on the rayon loader
     if !is_seq && !cfg.quick() {
         miri_stage(cfg, &mut out);
@@ -466,7 +551,7 @@ pub fn run(cfg: &RunCfg) -> (PropMeta, ShardOut, Map<String, Value>) {
     }
     let meta = PropMeta {
         level: "fault_enumeration",
-        rule: "stage 1: files with 2..6 object streams (multi-revision histories, so the same object number occurs in several containers; zero-length streams and indirect lengths included): through hook H1 every one of the k! orders in which the parallel phase can append the containers' objects is applied and the canonical digest (objects, trailer, max_id, version) must equal the natural-order digest and the digest computed by the no-default-features (sequential) build; stage 2: files with >= 8 object streams loaded 12 times in rayon pools of 1..16 threads with seeded delays before the accumulator lock; digests must agree and the completion orders actually observed are counted; stage 2b: files whose object streams hold 256..1300 objects each, loaded in pools of 1..8 and 16 threads and by the sequential build (how the index of one container is divided among workers must not show); stage 2c: Document::load_filtered with a filter that drops odd-numbered objects, repeated in child processes on pools of 3..16 threads - every load must return (a child whose CPU clock stands still for 20 s with loads outstanding is blocked) with the digest of the sequential build. distinct = distinct files.".into(),
+        rule: "stage 1: files with 2..6 object streams (multi-revision histories, so the same object number occurs in several containers; zero-length streams and indirect lengths included): through hook H1 every one of the k! orders in which the parallel phase can append the containers' objects is applied and the canonical digest (objects, trailer, max_id, version) must equal the natural-order digest and the digest computed by the no-default-features (sequential) build; stage 2: files with >= 8 object streams loaded 12 times in rayon pools of 1..16 threads with seeded delays before the accumulator lock; digests must agree and the completion orders actually observed are counted; stage 2b: files whose object streams hold 256..1300 objects each, loaded in pools of 1..8 and 16 threads and by the sequential build (how the index of one container is divided among workers must not show); stage 2c: Document::load_filtered with a filter that drops odd-numbered objects, repeated in child processes on pools of 3..16 threads - every load must return (a child whose CPU clock stands still for 20 s with loads outstanding is blocked) with the digest of the sequential build; stage 2d: files encrypted by the reference handler (empty user password) whose three object streams share an object number, unpacked after decryption - pools of 1..16 threads and the sequential build must agree. distinct = distinct files.".into(),
         assumptions: vec![
             "the merge of object-stream contents is the only point where completion order can reach the result (anchor of the property); interleavings inside the parse of one object are sampled (pools, delays), not enumerated".into(),
             "the Miri stage of DESIGN.md §4 C08 runs only in the thorough tier".into(),
